@@ -239,6 +239,56 @@ def run_default_axes(ctx: Ctx) -> None:
             _guard(ctx, "T10x.default-axes", f"D={D}:align_corners={ac}", f1, f"default axes D={D} grid align_corners={ac}", th)
 
 
+def run_single_field(ctx: Ctx) -> None:
+    """The single-field class FlowField delegates to a one-item batch: the representation label travels with it."""
+    prog = ctx.prog
+    FF = prog.cls("deepali.data.flow", "FlowFields")
+    F1 = prog.cls("deepali.data.flow", "FlowField")
+    Grid = prog.cls("deepali.core.grid", "Grid")
+    Axes = prog.cls("deepali.core.grid", "Axes")
+    fB = prog.find_method(F1, "batch")
+    ctx.fn(fB)
+    ctx.rule("T10x.single-field", "a FlowField given in any of the four representations: batch() is a one-item FlowFields with the same vectors, grid "
+                                  "and representation label, batch()[0] is the field again; sample(grid2), crop(...) and axes(to) of the single field "
+                                  "equal item 0 of the same operation on FlowFields(data[None], grid, axes) and carry the same label")
+    for D, shape in ((2, (2, 3)), (3, (2, 2, 3))):
+        for a in AXES:
+            def th(D=D, shape=shape, a=a):
+                reset_relations()
+                facts = fresh_facts()
+                it = make_interp(ctx)
+                s = [Rat.atom(f"s{i}") for i in range(D)]
+                s2 = [Rat.atom(f"n{i}") for i in range(D)]
+                for x in s + s2:
+                    facts.declare_positive(x)
+                g = it.new(Grid, size=tuple(reversed(shape)), spacing=STensor.from_flat(s, [D]), direction=rotation(D, "g"), align_corners=False)
+                g2 = it.new(Grid, size=tuple(n + 1 for n in reversed(shape)), spacing=STensor.from_flat(s2, [D]), align_corners=True)
+                ax = it.enum(Axes, a)
+                data = STensor.symbols("U", [D] + list(shape))
+                f = it.new(F1, data.clone(), g, ax)
+                ref = it.new(FF, data.unsqueeze(0).clone(), g, ax)
+                b = it.method(f, "batch")
+                if it.method(b, "axes") != ax:
+                    return False, f"FlowField(axes={a}).batch() is labelled {it.method(b, 'axes')}"
+                if not teq(b.plain(), data.unsqueeze(0)):
+                    return False, "batch() changed the vectors"
+                back = it.method(b, "__getitem__", 0)
+                if it.method(back, "axes") != ax or not teq(back.plain(), data):
+                    return False, f"batch()[0] of a FlowField(axes={a}) is not the field again"
+                ops = [("sample", (g2,), {}), ("crop", (), dict(margin=(1, 0) if D == 2 else (1, 0, 0)))] + \
+                      [("axes", (it.enum(Axes, t),), {}) for t in AXES if t != a]
+                for name, args, kw in ops:
+                    r1 = it.method(f, name, *args, **kw)
+                    r2 = it.method(ref, name, *args, **kw)
+                    l1, l2 = it.method(r1, "axes"), it.method(r2, "axes")
+                    if l1 != l2:
+                        return False, f"FlowField(axes={a}).{name}(...) is labelled {l1}, the same operation on the one-item batch {l2}"
+                    if tuple(r1.plain().shape) != tuple(r2.plain()[0].shape) or not teq(r1.plain(), r2.plain()[0]):
+                        return False, f"FlowField(axes={a}).{name}(...) differs from item 0 of the same operation on the one-item batch"
+                return True, ""
+            _guard(ctx, "T10x.single-field", f"D={D}:{a}", fB, f"single FlowField D={D} axes={a}", th)
+
+
 def run_flow_sample(ctx: Ctx) -> None:
     """FlowFields.sample(grid): vectors are re-expressed in the units of the new grid (used by C10 and, as the flow part of lock-step, C04)."""
     prog = ctx.prog
